@@ -1152,8 +1152,10 @@ func (h *pkH) snapshot() *pkSnap {
 var pkRefundErrRe = regexp.MustCompile(`^unable to unescrow tokens, this may be caused by a malicious counterparty module or a bug: please open an issue on counterparty module: spendable balance (\d+)(\S+) is smaller than (\d+)(\S+): insufficient funds$`)
 
 // packet-forward-middleware WriteAcknowledgementForForwardedPacket: the two ways the refund of a forward can fail
-var pkFwdMoveErrRe = regexp.MustCompile(`^failed to send coins from escrow account to refund escrow account: spendable balance (\d+)(\S+) is smaller than (\d+)(\S+): insufficient funds$`)
-var pkFwdBurnErrRe = regexp.MustCompile(`^failed to send coins from escrow to module account for burn: spendable balance (\d+)(\S+) is smaller than (\d+)(\S+): insufficient funds$`)
+// (fmt.Errorf("...: %w") over a registered sdk error prints that error's source location: module path and line of
+// the bank keeper, the same in every process of one binary)
+var pkFwdMoveErrRe = regexp.MustCompile(`^failed to send coins from escrow account to refund escrow account: spendable balance (\d+)(\S+) is smaller than (\d+)(\S+): insufficient funds(?: \[[^\]]+\])?$`)
+var pkFwdBurnErrRe = regexp.MustCompile(`^failed to send coins from escrow to module account for burn: spendable balance (\d+)(\S+) is smaller than (\d+)(\S+): insufficient funds(?: \[[^\]]+\])?$`)
 
 // errClassOf canonicalises RollappPacket.Error: the texts the unchanged code produces are recognised
 // EXACTLY and named; anything else (e.g. a text carrying process-local data) shows as x<digest>
